@@ -17,7 +17,15 @@ support library theories/Base/PySemIO.v:
   outside of): generator expressions, `zip_longest(*[iter(x)] * n, fillvalue=c)` (py_grouper), `enumerate(x, start=k)`,
   `chain(a, b, ..)`, calls of the generator functions utils.matrix_iter / matrix_iter_verbose (kept unevaluated until they are
   consumed: the code before the first yield runs at the first next());
-* `reduce(lambda x, y: e, seq)`, `seq[::-1]`, `bytearray(<iterator>)`, nested functions (Tr.local_def, with this subclass);
+* `reduce(lambda x, y: e, seq)`, `seq[::-1]`, `bytearray(<iterator>)`, nested functions (Tr.local_def, with this subclass),
+  `g = partial(f, k=v)` for a nested function f, `pack(b'>nB', ...)` (py_pack_B), unpacking of a generator expression,
+  `x in (t1, t2)` for tuples of ints, `None in d.values()`, `for k, v in d.items(): d[k] = f(v)` (the values replaced in order),
+  narrowing of `x is None` for every option type (the `if` joined when its branches only fall through), truthiness of a colour;
+* write_terminal_compact: a dict literal with tuple-of-int keys (py_getL), `it = [<generator call>] * 2` with
+  `zip_longest(*it, fillvalue=repeat(c))` (py_pairs_fill: consecutive rows paired, the odd last one with the infinite iterator)
+  and `zip(a, b)` with such a b (py_zip_inf);
+* a decorated function is translated only when the decorator list is literally the expected one (write_ppm: the function
+  under @colorful, i.e. write_ppm.__wrapped__, which takes the colormap dict);
 * calls of the functions of utils.py that gen/translate_utils.py has translated (SrcUtils.v, SrcUtilsIter.v, SrcUtilsVerbose.v:
   parameter names and defaults are read from the current utils.py, the definitions with the expected signatures are looked up
   in the freshly written files, Coq type-checks the calls);
